@@ -160,12 +160,48 @@ theorem fixOne_out (ss : List Stmt) (i : Nat) (s : Stmt) : FixOut s (fixOne ss i
     · rw [fixOne_nonrel ss i s (by simpa using h) hv]
       exact (fixStep1_out ss s).bind (fun s1 _ => (fixStep2_out ss _ s1).bind (fun s2 _ => fixStep3_out ss i s2))
 
+/-! ### `fitWidth` and the per-statement step `fixFit` = `fixOne` then `fitWidth` -/
+
+/-- `fitWidth` changes at most `pkg.additional` -/
+theorem fitWidth_out (s : Stmt) : FixOut s (fitWidth s) := by
+  unfold fitWidth
+  split
+  · right; right; exact ⟨_, rfl, .refl _⟩
+  · split
+    · split
+      · dsimp only
+        split
+        · split
+          · right; right; exact ⟨_, rfl, _, rfl⟩
+          · left; rfl
+        · left; rfl
+      · right; left; rfl
+    · right; right; exact ⟨_, rfl, .refl _⟩
+
+theorem fitWidth_same {s s' : Stmt} (h : fitWidth s = .ok s') : SameButAdditional s s' := by
+  rcases fitWidth_out s with h1 | h1 | ⟨t, h1, h2⟩ <;> rw [h1] at h <;> cases h
+  exact h2
+
+theorem fixOne_same {ss : List Stmt} {i : Nat} {s s' : Stmt} (h : fixOne ss i s = .ok s') : SameButAdditional s s' := by
+  rcases fixOne_out ss i s with h1 | h1 | ⟨t, h1, h2⟩ <;> rw [h1] at h <;> cases h
+  exact h2
+
+theorem fixFit_out (ss : List Stmt) (i : Nat) (s : Stmt) : FixOut s (fixFit ss i s) := by
+  have : fixFit ss i s = (fixOne ss i s).bind fitWidth := by
+    unfold fixFit; cases fixOne ss i s <;> rfl
+  rw [this]
+  exact (fixOne_out ss i s).bind (fun s1 _ => fitWidth_out s1)
+
+theorem fixFit_same {ss : List Stmt} {i : Nat} {s s' : Stmt} (h : fixFit ss i s = .ok s') : SameButAdditional s s' := by
+  rcases fixFit_out ss i s with h1 | h1 | ⟨t, h1, h2⟩ <;> rw [h1] at h <;> cases h
+  exact h2
+
 theorem fixAll_not_diverged (ss : List Stmt) (i : Nat) (l : List Stmt) : fixAll ss i l ≠ .diverged := by
   induction l generalizing i with
   | nil => simp [fixAll]
   | cons s rest ih =>
-    unfold fixAll
-    rcases fixOne_out ss i s with h | h | ⟨s', h, hs⟩ <;> rw [h]
+    rw [fixAll_cons]
+    rcases fixFit_out ss i s with h | h | ⟨s', h, hs⟩ <;> rw [h]
     · simp
     · simp
     · dsimp only
@@ -173,15 +209,15 @@ theorem fixAll_not_diverged (ss : List Stmt) (i : Nat) (l : List Stmt) : fixAll 
       | diverged => exact absurd h (ih _)
       | _ => simp
 
-/-- `fixAll` is the pointwise application of `fixOne` (with the statement's index) -/
+/-- `fixAll` is the pointwise application of `fixFit` = `fixOne` then `fitWidth` (with the statement's index) -/
 theorem fixAll_ok {ss : List Stmt} {i : Nat} {l l' : List Stmt} (h : fixAll ss i l = .ok l') :
     l'.length = l.length ∧
-      ∀ j s, l[j]? = some s → ∃ s', l'[j]? = some s' ∧ fixOne ss (i + j) s = .ok s' := by
+      ∀ j s, l[j]? = some s → ∃ s', l'[j]? = some s' ∧ fixFit ss (i + j) s = .ok s' := by
   induction l generalizing i l' with
   | nil => simp [fixAll] at h; subst h; simp
   | cons s rest ih =>
-    unfold fixAll at h
-    cases h1 : fixOne ss i s with
+    rw [fixAll_cons] at h
+    cases h1 : fixFit ss i s with
     | ok s' =>
       rw [h1] at h; dsimp only at h
       cases h2 : fixAll ss (i + 1) rest with
@@ -198,6 +234,16 @@ theorem fixAll_ok {ss : List Stmt} {i : Nat} {l l' : List Stmt} (h : fixAll ss i
           exact ⟨t', by simpa using h3, by rw [← h4]; congr 1; omega⟩
       | _ => rw [h2] at h; cases h
     | _ => rw [h1] at h; cases h
+
+/-- the two-step form: the statement after `fixOne`, and the final one after `fitWidth` -/
+theorem fixAll_ok2 {ss : List Stmt} {i : Nat} {l l' : List Stmt} (h : fixAll ss i l = .ok l') :
+    l'.length = l.length ∧
+      ∀ j s, l[j]? = some s → ∃ s1 s', l'[j]? = some s' ∧ fixOne ss (i + j) s = .ok s1 ∧ fitWidth s1 = .ok s' := by
+  obtain ⟨hl, hp⟩ := fixAll_ok h
+  refine ⟨hl, fun j s hs => ?_⟩
+  obtain ⟨s', h1, h2⟩ := hp j s hs
+  obtain ⟨s1, h3, h4⟩ := fixFit_ok.1 h2
+  exact ⟨s1, s', h1, h3, h4⟩
 end CoCo.Asm
 
 namespace CoCo.Asm
